@@ -102,8 +102,8 @@ def bounded_info():
             "1..8 atoms (quick) or 1..40 atoms (thorough: all size pairs <= 8 twice, plus sampled pairs with a side in "
             "{9,12,16,24,32,40}) for start and end, either one larger or equal; hydrogens on leaves of the larger molecule, one or two "
             "residues; restraint lists none/one pair/two pairs; every non-empty subset of deformation types {0,1,2} (type 2 only when "
-            "the mobile molecule has >= 2 atoms); ignore_hydrogens on/off; seeds; three ways of handing the molecules over (constructor, "
-            "setters in reverse order, setters re-assigned over a previous pair). Cyclic mobile molecules (tree plus 1-2 extra bonds) "
+            "the mobile molecule has >= 2 atoms); ignore_hydrogens on/off; seeds; four ways of handing the molecules over (constructor, "
+            "setters in reverse order, setters re-assigned over a previous pair, one Alignment re-used after its held molecules were given the conformation under check in place). Cyclic mobile molecules (tree plus 1-2 extra bonds) "
             "only with type 2 disabled and only the all-pairwise clause. Thorough adds the shipped BF4 and BMIM CG/AA pairs both ways "
             "round. Each run evaluates: larger molecule only translated by one common vector (start) / bit-identical (end), bonded distances "
             "of the mobile molecule (acyclic), all pairwise distances (no single-atom moves), atom count and name sequence, finiteness, "
@@ -131,7 +131,7 @@ def bounded_info():
 # generators (own writers; oracle data kept next to the texts)
 
 HEAVY = ("C", "N", "O", "S")
-SCENARIOS = ("ctor", "setters", "reset")
+SCENARIOS = ("ctor", "setters", "reset", "reuse")
 STEPS = (3, 8, 20)
 ENERGY_BUDGET = 20000
 
@@ -356,7 +356,7 @@ def cases_degenerate(pair, seeds, steps=STEPS):
                    "restrictions": restr, "restr_kind": rname,
                    "auto_guess": not (pair["start"].get("n_res", 1) > 1 and restr is None),
                    "types": types, "ignore_h": bool(k % 2), "seed": sd,
-                   "steps_factor": steps[k % len(steps)], "scenario": SCENARIOS[(k // len(steps)) % 3],
+                   "steps_factor": steps[k % len(steps)], "scenario": SCENARIOS[(k // len(steps)) % len(SCENARIOS)],
                    "repeat": sd == seeds[k % len(seeds)], "combo": k}
         k += 1
 
@@ -403,7 +403,7 @@ def cases_for_pair(pair, seeds, allow2=True, steps=STEPS, with_default_types=Tru
                    "restrictions": restr, "restr_kind": rname,
                    "auto_guess": not (multi_res and restr is None),
                    "types": types, "ignore_h": ih, "seed": sd,
-                   "steps_factor": steps[k % len(steps)], "scenario": SCENARIOS[(k // len(steps)) % 3],
+                   "steps_factor": steps[k % len(steps)], "scenario": SCENARIOS[(k // len(steps)) % len(SCENARIOS)],
                    "repeat": sd == seeds[k % len(seeds)], "combo": k}
         k += 1
 
@@ -557,6 +557,20 @@ def _build(Alignment, scenario, S, E, extra, case=None):
         ali.start = S
         ali.end = E
         return ali
+    if scenario == "reuse":
+        # ONE Alignment object used twice: first on another conformation of the same two molecules (other place, other bond lengths), then --
+        # after both held molecules were given the conformation under check in place -- for the call under check.  "Initial" bond lengths
+        # are those at the start of THIS call: nothing measured during the first use may survive
+        S2, E2 = extra
+        ali = Alignment(start=S2, end=E2)
+        if case is not None:
+            try:
+                _align(ali, dict(case, steps_factor=min(int(case["steps_factor"]), 2), restrictions=None, auto_guess=False), case["seed"] + 77)
+            except Exception:       # the first use is set-up, not the call under check
+                pass
+            ali.start.atoms_positions = np.array(case["start"]["xyz"], dtype=float)
+            ali.end.atoms_positions = np.array(case["end"]["xyz"], dtype=float)
+        return ali
     raise Harness(f"unknown scenario {scenario}")
 
 
@@ -614,7 +628,7 @@ def run_case(case, paths=None, other_seed_repeat=False):
     try:
         S, E = _load(paths["start"], case["start"]), _load(paths["end"], case["end"])
         extra, extra_before = None, None
-        if case["scenario"] == "reset":
+        if case["scenario"] in ("reset", "reuse"):
             S2, E2 = _load(paths["start"], case["start"]), _load(paths["end"], case["end"])
             _previous_pair(S2, E2)
             extra = (S2, E2)
@@ -641,7 +655,7 @@ def run_case(case, paths=None, other_seed_repeat=False):
         if case.get("repeat") and obs["exc"] is None:
             S3, E3 = _load(paths["start"], case["start"]), _load(paths["end"], case["end"])
             extra3 = None
-            if case["scenario"] == "reset":
+            if case["scenario"] in ("reset", "reuse"):
                 S4, E4 = _load(paths["start"], case["start"]), _load(paths["end"], case["end"])
                 _previous_pair(S4, E4)
                 extra3 = (S4, E4)
